@@ -91,6 +91,13 @@ def handle (stdin stdout : IO.FS.Stream) (args : List String) : IO String := do
       let (out, log) ← runIOLog stdin stdout (collect (geneGen close 0) n) []
       pure (s!"ok {showGenome (out.map encP)}" ++ (if ltAgrees close log then "" else " native-mismatch"))
     | _, _ => pure "bad-request"
+  | ["oolrate", n] =>
+    -- the rate `WithOneOverLength` derives for a genome of `n` genes (bits of fl32(1/fl32(n)))
+    match n.toNat? with
+    | some n =>
+      let b := F32.recipOfNat n
+      pure (s!"{b}" ++ (if b == nativeRecip n then "" else " native-mismatch"))
+    | none => pure "bad-request"
   | ["closep", n] =>
     match n.toNat? with
     | some n =>
